@@ -48,74 +48,139 @@ class WriterTables:
 
     # update_field dispatcher ------------------------------------------------
     def _dispatch(self):
-        fn = self.writer.methods.get("update_field")
-        if fn is None:
+        """route table of H5Writer.update_field, by symbolic evaluation: for every attribute string the function can
+        distinguish, the writer method reached when `attribute == <that string>` (kind-pruned reachability on the
+        normalised body: helpers expanded, hoisted lists substituted; elif chains, guard clauses with early returns
+        and dict-dispatch tables all evaluate to the same table)."""
+        from .cfg import CFG
+        from .kinds import reach
+        from .normalize import Normalizer, expanded
+
+        fn0 = self.writer.methods.get("update_field")
+        if fn0 is None:
             raise AnalysisError("anchor H5Writer.update_field not found")
-        params = fn.params
+        params = fn0.params
         if len(params) < 4:
             raise AnalysisError("H5Writer.update_field: unexpected signature")
         self.uf_entity, self.uf_attr = params[2], params[3]
-        # find the if/elif chain testing the attribute parameter
-        top = None
-        for node in ast.walk(fn.node):
-            if isinstance(node, ast.If) and self._route_test(node.test) is not None:
-                top = node
-                break
-        if top is None:
-            raise AnalysisError("H5Writer.update_field: dispatch chain not found")
-        self.routes: dict[str, str] = {}  # route -> handler name | 'entity_type' inline
-        self.route_groups: list[tuple[list[str], str]] = []
-        node = top
-        self.fallback = None
-        while True:
-            routes = self._route_test(node.test)
-            if routes is None:
-                raise AnalysisError(
-                    f"h5_writer.py:{node.lineno}: unrecognised dispatcher test {unparse(node.test)[:60]}"
-                )
-            handler = self._handler(node.body)
-            self.route_groups.append((routes, handler))
-            for r in routes:
-                self.routes[r] = handler
-            if len(node.orelse) == 1 and isinstance(node.orelse[0], ast.If):
-                node = node.orelse[0]
-                continue
-            self.fallback = self._handler(node.orelse) if node.orelse else None
-            break
+        fn = Normalizer(self.p).view(fn0)
+        attr = self.uf_attr
+        writer_methods = set(self.writer.methods)
+
+        # candidate attribute strings: everything the attribute parameter is compared with / looked up in
+        cands: list[str] = []
+
+        def add_seq(node):
+            if isinstance(node, (ast.List, ast.Tuple, ast.Set)):
+                for e in node.elts:
+                    if isinstance(e, ast.Constant) and isinstance(e.value, str) and e.value not in cands:
+                        cands.append(e.value)
+            elif isinstance(node, ast.Dict):
+                for k in node.keys:
+                    if isinstance(k, ast.Constant) and isinstance(k.value, str) and k.value not in cands:
+                        cands.append(k.value)
+            else:
+                seq = const_seq(self.p, self.writer_mod, node, self.writer)
+                for v in seq or []:
+                    if v not in cands:
+                        cands.append(v)
+
+        dict_tables = []  # (dict node) used as dispatch tables on the attribute
+        for n in ast.walk(fn.node):
+            if isinstance(n, ast.Compare) and len(n.ops) == 1 and isinstance(n.left, ast.Name) and n.left.id == attr:
+                if isinstance(n.ops[0], (ast.In, ast.NotIn)):
+                    add_seq(expanded(n.comparators[0], fn.node))
+                elif isinstance(n.ops[0], (ast.Eq, ast.NotEq)) and isinstance(n.comparators[0], ast.Constant):
+                    add_seq(ast.List(elts=[n.comparators[0]], ctx=ast.Load()))
+            # D.get(attribute, default) / D[attribute]
+            tbl = None
+            if isinstance(n, ast.Call) and isinstance(n.func, ast.Attribute) and n.func.attr == "get" and n.args and isinstance(n.args[0], ast.Name) and n.args[0].id == attr:
+                tbl = (expanded(n.func.value, fn.node), n.args[1] if len(n.args) > 1 else None, n)
+            if isinstance(n, ast.Subscript) and isinstance(n.slice, ast.Name) and n.slice.id == attr and isinstance(n.ctx, ast.Load):
+                tbl = (expanded(n.value, fn.node), None, n)
+            if tbl is not None and isinstance(tbl[0], ast.Dict):
+                add_seq(tbl[0])
+                dict_tables.append(tbl)
+        if not cands:
+            raise AnalysisError("H5Writer.update_field: dispatch on the attribute not found")
+
+        # membership tests against a local table: put the table's literal in place, so that the tests can be evaluated
+        from .normalize import single_assignments
+        import copy as _copy
+
+        sa_defs = single_assignments(fn.node)
+
+        class _Lit(ast.NodeTransformer):
+            def visit_Compare(self, n):
+                self.generic_visit(n)
+                if len(n.ops) == 1 and isinstance(n.ops[0], (ast.In, ast.NotIn)) and isinstance(n.comparators[0], ast.Name) \
+                        and isinstance(sa_defs.get(n.comparators[0].id), (ast.Dict, ast.List, ast.Tuple, ast.Set)):
+                    n.comparators = [ast.copy_location(_copy.deepcopy(sa_defs[n.comparators[0].id]), n.comparators[0])]
+                return n
+
+        fn.node.body = [_Lit().visit(st) for st in fn.node.body]
+        ast.fix_missing_locations(fn.node)
+        g = CFG(fn.node)
+
+        def method_of(e):
+            ch = chain(e)
+            if ch and ch[0] in ("cls", "H5Writer", "self") and len(ch) == 2 and ch[1] in writer_methods:
+                return ch[1]
+            return None
+
+        def handler_for(route):
+            facts = {"const:" + attr: route}
+            nodes = reach(g, [g.entry], attr, facts)
+            calls = []
+            for nd in nodes:
+                if nd.ast is None or isinstance(nd.ast, list) or nd.kind == "with":
+                    continue
+                src = nd.ast
+                for c in ast.walk(src):
+                    if not isinstance(c, ast.Call):
+                        continue
+                    m = method_of(c.func)
+                    if m is None and isinstance(c.func, (ast.Name, ast.Subscript, ast.Call)):
+                        # indirect: the callee is selected from a table keyed by the attribute
+                        f = expanded(c.func, fn.node)
+                        for d, default, site in dict_tables:
+                            if any(x is site for x in ast.walk(f)) or unparse(f) == unparse(expanded(site, fn.node)):
+                                hit = None
+                                for k, v in zip(d.keys, d.values):
+                                    if isinstance(k, ast.Constant) and k.value == route:
+                                        hit = v
+                                m = method_of(hit) if hit is not None else (method_of(default) if default is not None else None)
+                    if m is not None and m.startswith(("write_", "update_")) and m not in calls:
+                        calls.append(m)
+            if "write_entity_type" in calls:
+                return "inline:entity_type"
+            real = [c for c in calls if c != "write_entity_type"]
+            if len(real) == 1:
+                return real[0]
+            return None if not real else "ambiguous:" + ",".join(sorted(real))
+
+        self.routes = {}
+        self.route_groups = []
+        OTHER = "\x00<any other attribute>"
+        self.fallback = handler_for(OTHER)
         if self.fallback != "write_attributes":
-            raise AnalysisError(
-                f"H5Writer.update_field: fallback branch is {self.fallback!r}, expected write_attributes"
-            )
+            raise AnalysisError(f"H5Writer.update_field: fallback branch is {self.fallback!r}, expected write_attributes")
+        by_handler: dict = {}
+        for r in cands:
+            h = handler_for(r)
+            if h is None or h.startswith("ambiguous"):
+                raise AnalysisError(f"h5_writer.py:{fn0.node.lineno}: unrecognised dispatcher branch for attribute {r!r} ({h})")
+            if h == self.fallback:
+                continue  # compared with, but handled like any other attribute
+            self.routes[r] = h
+            by_handler.setdefault(h, []).append(r)
+        for h, rs in by_handler.items():
+            self.route_groups.append((rs, h))
         self.value_routes = [r for r, h in self.routes.items() if h == "write_data_values"]
         self.array_routes = [r for r, h in self.routes.items() if h == "write_array_attribute"]
         self.dedicated_routes = [
             r for r, h in self.routes.items() if h not in ("write_data_values", "write_array_attribute")
         ]
-
-    def _route_test(self, test):
-        if isinstance(test, ast.Compare) and len(test.ops) == 1:
-            left = test.left
-            if isinstance(left, ast.Name) and left.id == self.uf_attr:
-                if isinstance(test.ops[0], ast.In):
-                    seq = const_seq(self.p, self.writer_mod, test.comparators[0], self.writer)
-                    return list(seq) if seq is not None else None
-                if isinstance(test.ops[0], ast.Eq) and isinstance(test.comparators[0], ast.Constant):
-                    return [test.comparators[0].value]
-        return None
-
-    def _handler(self, body) -> str:
-        calls = []
-        for st in body:
-            for n in ast.walk(st):
-                if isinstance(n, ast.Call):
-                    ch = chain(n.func)
-                    if ch and ch[0] in ("cls", "H5Writer") and len(ch) == 2:
-                        calls.append(ch[1])
-        if len(calls) == 1 and len(body) == 1:
-            return calls[0]
-        if any(c == "write_entity_type" for c in calls):
-            return "inline:entity_type"
-        raise AnalysisError(f"h5_writer.py:{body[0].lineno}: unrecognised dispatcher branch")
 
     # write_attributes skip list ----------------------------------------------
     def _skip(self):
